@@ -73,8 +73,11 @@ impl Stats {
             e.0 += v.0;
             e.1 += v.1;
         }
+        // keep a few written-out cases per table family (alu / poseidon1 / poseidon2)
         for s in o.samples {
-            if self.samples.len() < 24 {
+            let fam = |v: &Value| v["table"].as_str().unwrap_or("").split('/').next().unwrap_or("").to_string();
+            let f = fam(&s);
+            if self.samples.iter().filter(|x| fam(x) == f).count() < 6 {
                 self.samples.push(s);
             }
         }
